@@ -448,3 +448,78 @@ def rule_after_loop(rep, prog, rule, fid, inner_names, b_names, inner_what, b_wh
         return False
     rep.ok(rule, key, "dominated by the loop's iterator and outside the loop body", site=site(body, bs[0][0]))
     return True
+
+
+def natural_loop(body, header):
+    """blocks of the natural loop headed by block `header` (back edges = edges p->header with
+    header dominating p); empty set if header heads no loop"""
+    dom = body.dominators()
+    srcs = [p for p in body.pred(header) if p in dom and header in dom[p]]
+    if not srcs:
+        return set()
+    loop = {header}
+    stack = list(srcs)
+    while stack:
+        x = stack.pop()
+        if x in loop:
+            continue
+        loop.add(x)
+        stack.extend(p for p in body.pred(x) if p in dom)
+    return loop
+
+
+def rule_loop_exhausted(rep, prog, rule, fid, inner_names, inner_what, key=None):
+    """The innermost `for` loop around the call(s) to inner_names is left normally only by
+    exhaustion of its iterator: every edge out of the loop either is the None arm of the switch on
+    the loop's Iterator::next result, or leads to error exits only (`?`)."""
+    body = get_body(rep, prog, rule, fid)
+    if body is None:
+        return False
+    key = key or "%s: the loop over %s runs to exhaustion" % (short(fid), inner_what)
+    ins = calls_to(prog, body, inner_names)
+    if not ins:
+        rep.fail(rule, key, "cannot establish: %s not found in %s" % (inner_what, fid), site=body.span)
+        return False
+    good = True
+    for ib, _ in ins:
+        best = None
+        for b, t in body.calls():
+            if not t.get("f", "").endswith("Iterator::next"):
+                continue
+            # the loop header is the block the back edge targets: the block of the next() call or a
+            # predecessor chain of straight-line blocks; take the natural loop of any block of the chain
+            hb = b
+            lp = natural_loop(body, hb)
+            steps = 0
+            while not lp and steps < 4 and len(body.pred(hb)) == 1:
+                hb = body.pred(hb)[0]
+                lp = natural_loop(body, hb)
+                steps += 1
+            if lp and ib in lp and b in lp and (best is None or len(lp) < len(best[1])):
+                best = (b, lp, t)
+        if best is None:
+            rep.fail(rule, key, "cannot establish: %s is not inside an iterator loop in %s" % (inner_what, fid), site=site(body, ib))
+            return False
+        hb, lp, ht = best
+        sw = ht["to"]
+        st = body.term(sw)
+        none_t = None
+        if st["k"] == "switch":
+            none_t = dict((v, tg) for v, tg in st["vals"]).get("0")
+        if none_t is None:
+            rep.fail(rule, key, "cannot establish: the result of the loop's Iterator::next is not matched directly", site=site(body, hb))
+            return False
+        for x in sorted(lp):
+            for y in body.succ(x):
+                if y in lp:
+                    continue
+                if (x, y) == (sw, none_t):
+                    continue
+                if not must_pass(body, [], exits="ok", starts=(y,)):
+                    continue      # error exits only
+                good = False
+                rep.fail(rule, key, "the loop over %s can be left before its iterator is exhausted, on a path that still returns Ok: "
+                         "the remaining items of the iterator are dropped" % inner_what, site=site(body, x))
+    if good:
+        rep.ok(rule, key, "the only non-error edge out of the innermost loop is the None arm of its Iterator::next", site=site(body, ins[0][0]))
+    return good
